@@ -108,6 +108,14 @@ pub trait Part: 'static {
     }
 }
 
+/// resident set size of this process
+pub fn rss_bytes() -> u64 {
+    std::fs::read_to_string("/proc/self/statm")
+        .ok()
+        .and_then(|s| s.split_whitespace().nth(1).and_then(|x| x.parse::<u64>().ok()))
+        .map_or(0, |pages| pages * 4096)
+}
+
 // ---------------------------------------------------------------------------
 // panic capture
 
@@ -468,10 +476,38 @@ impl Ctx {
             self.property.hash(&mut h);
             h.finish() % 1_000_003
         };
+        // what every shard is evaluating right now, for the memory watchdog below
+        let slots: Vec<std::sync::Mutex<Option<P::Case>>> = (0..shards).map(|_| std::sync::Mutex::new(None)).collect();
+        let done = std::sync::atomic::AtomicBool::new(false);
         let outs: Vec<ShardOut<P::Case>> = std::thread::scope(|scope| {
+            // A generated program can ask the engine for unbounded memory (doubling a string in a
+            // recursion, printing a huge lazy sequence). That is the harness's problem, not a
+            // verdict: stop with exit 2 and say which cases were running instead of being killed.
+            let slots_ref = &slots;
+            let done_ref = &done;
+            scope.spawn(move || {
+                let limit_gib: u64 = std::env::var("MJV_RSS_LIMIT_GIB").ok().and_then(|v| v.parse().ok()).unwrap_or(24);
+                while !done_ref.load(std::sync::atomic::Ordering::SeqCst) {
+                    std::thread::sleep(std::time::Duration::from_millis(100));
+                    if rss_bytes() > limit_gib << 30 {
+                        eprintln!("INCONCLUSIVE: the harness process grew beyond {limit_gib} GiB in part {}; cases being evaluated:", P::NAME);
+                        for slot in slots_ref.iter() {
+                            if let Ok(g) = slot.try_lock() {
+                                if let Some(c) = g.as_ref() {
+                                    let mut text = P::show(c).to_string();
+                                    text.truncate(3000);
+                                    eprintln!("  running: {text}");
+                                }
+                            }
+                        }
+                        std::process::exit(2);
+                    }
+                }
+            });
             let handles: Vec<_> = (0..shards)
                 .map(|shard| {
                     let open = &open;
+                    let slots = &slots;
                     std::thread::Builder::new()
                         .stack_size(256 << 20)
                         .spawn_scoped(scope, move || {
@@ -494,6 +530,9 @@ impl Ctx {
                             let last_fail: RefCell<Option<Failure>> = RefCell::new(None);
                             let strat = P::strategy(tier);
                             let res = runner.run(&strat, |case| {
+                                if let Ok(mut g) = slots[shard].lock() {
+                                    *g = Some(case.clone());
+                                }
                                 let mut st = stats.borrow_mut();
                                 let f = Self::eval_case::<P>(
                                     &case,
@@ -538,7 +577,7 @@ impl Ctx {
                         .expect("spawn")
                 })
                 .collect();
-            handles
+            let outs = handles
                 .into_iter()
                 .map(|h| match h.join() {
                     Ok(o) => o,
@@ -547,7 +586,9 @@ impl Ctx {
                         std::process::exit(2)
                     }
                 })
-                .collect()
+                .collect();
+            done.store(true, std::sync::atomic::Ordering::SeqCst);
+            outs
         });
         for out in outs {
             self.merge(P::NAME, out.stats);
